@@ -162,7 +162,11 @@ func (p *PartStore) GetPart(ctx context.Context, tx database.Tx, id partstore.Pa
 }
 func (p *PartStore) GetPartIds(ctx context.Context, tx database.Tx) ([]partstore.PartId, error) {
 	Point(p.Name+".GetPartIds", nil)
-	return p.Inner.GetPartIds(ctx, tx)
+	ids, err := p.Inner.GetPartIds(ctx, tx)
+	// a second point after the listing was taken: what the caller combines it with next (a database
+	// query that has no point of its own) may be separated from it by another thread's commit
+	Point(p.Name+".GetPartIds.ret", nil)
+	return ids, err
 }
 func (p *PartStore) DeletePart(ctx context.Context, tx database.Tx, id partstore.PartId) error {
 	if tx == nil {
